@@ -52,6 +52,23 @@ func NewDecimal(n *big.Int, exp int32, negZero bool) *Decimal {
 	}
 }
 
+// ScaleOf returns the scale, which is the negated exponent. The int32 field wraps around for
+// the one exponent whose negation does not fit, math.MinInt32, and stays the way to store it.
+func (d *Decimal) scaleOf() int64 {
+	if d.scale == math.MinInt32 {
+		return -int64(math.MinInt32)
+	}
+	return int64(d.scale)
+}
+
+// CheckScale panics if the negation of the scale is not a valid exponent.
+func checkScale(scale int64) int32 {
+	if scale > -int64(math.MinInt32) || scale < -int64(math.MaxInt32) {
+		panic("exponent out of bounds")
+	}
+	return int32(scale)
+}
+
 // NewDecimalInt creates a new decimal whose value is equal to n.
 func NewDecimalInt(n int64) *Decimal {
 	return NewDecimal(big.NewInt(n), 0, false)
@@ -163,14 +180,11 @@ func (d *Decimal) Neg() *Decimal {
 // Mul multiplies two decimals and returns the result.
 func (d *Decimal) Mul(o *Decimal) *Decimal {
 	// a*10^x * b*10^y = (a*b) * 10^(x+y)
-	scale := int64(d.scale) + int64(o.scale)
-	if scale > math.MaxInt32 || scale < math.MinInt32 {
-		panic("exponent out of bounds")
-	}
+	scale := d.scaleOf() + o.scaleOf()
 
 	return &Decimal{
 		n:     new(big.Int).Mul(d.n, o.n),
-		scale: int32(scale),
+		scale: checkScale(scale),
 	}
 }
 
@@ -178,14 +192,11 @@ func (d *Decimal) Mul(o *Decimal) *Decimal {
 // places to the left. It's a computationally-cheap way to compute
 // d * 10^shift.
 func (d *Decimal) ShiftL(shift int) *Decimal {
-	scale := int64(d.scale) - int64(shift)
-	if scale > math.MaxInt32 || scale < math.MinInt32 {
-		panic("exponent out of bounds")
-	}
+	scale := d.scaleOf() - int64(shift)
 
 	return &Decimal{
 		n:     d.n,
-		scale: int32(scale),
+		scale: checkScale(scale),
 	}
 }
 
@@ -193,14 +204,11 @@ func (d *Decimal) ShiftL(shift int) *Decimal {
 // places to the right. It's a computationally-cheap way to compute
 // d / 10^shift.
 func (d *Decimal) ShiftR(shift int) *Decimal {
-	scale := int64(d.scale) + int64(shift)
-	if scale > math.MaxInt32 || scale < math.MinInt32 {
-		panic("exponent out of bounds")
-	}
+	scale := d.scaleOf() + int64(shift)
 
 	return &Decimal{
 		n:     d.n,
-		scale: int32(scale),
+		scale: checkScale(scale),
 	}
 }
 
@@ -226,9 +234,9 @@ func (d *Decimal) Equal(o *Decimal) bool {
 }
 
 func rescale(a, b *Decimal) (*Decimal, *Decimal) {
-	if a.scale < b.scale {
+	if a.scaleOf() < b.scaleOf() {
 		return a.upscale(b.scale), b
-	} else if a.scale > b.scale {
+	} else if a.scaleOf() > b.scaleOf() {
 		return a, b.upscale(a.scale)
 	} else {
 		return a, b
@@ -240,7 +248,7 @@ func rescale(a, b *Decimal) (*Decimal, *Decimal) {
 // expense of more storage space. Technically speaking implies adding
 // more precision, but we're not tracking that too closely.
 func (d *Decimal) upscale(scale int32) *Decimal {
-	diff := int64(scale) - int64(d.scale)
+	diff := (&Decimal{scale: scale}).scaleOf() - d.scaleOf()
 	if diff < 0 {
 		panic("can't upscale to a smaller scale")
 	}
@@ -257,10 +265,10 @@ func (d *Decimal) upscale(scale int32) *Decimal {
 // Check to upscale a decimal which means to make 'n' bigger by making 'scale' smaller.
 // Makes comparisons and math easier, at the expense of more storage space.
 func (d *Decimal) checkToUpscale() (*Decimal, error) {
-	if d.scale < 0 {
+	if d.scaleOf() < 0 {
 		// Don't even bother trying this with numbers that *definitely* too big to represent
 		// as an int64, because upscale(0) will consume a bunch of memory.
-		if d.scale < -20 {
+		if d.scaleOf() < -20 {
 			return d, &strconv.NumError{
 				Func: "ParseInt",
 				Num:  d.String(),
@@ -280,7 +288,7 @@ func (d *Decimal) trunc() (int64, error) {
 	}
 	str := ud.n.String()
 
-	truncateTo := len(str) - int(ud.scale)
+	truncateTo := int64(len(str)) - ud.scaleOf()
 	if truncateTo <= 0 {
 		return 0, nil
 	}
@@ -295,14 +303,14 @@ func (d *Decimal) round() (int64, error) {
 		return 0, err
 	}
 
-	if int64(ud.scale) > int64(len(ud.n.String())) {
+	if ud.scaleOf() > int64(len(ud.n.String())) {
 		// The magnitude is below 0.1; don't materialise 10^scale for a huge scale.
 		return 0, nil
 	}
 
 	// Exact integer arithmetic: the coefficient may be far wider than an int64 or a
 	// float64 mantissa even when the rounded result is small. Halves round away from zero.
-	pow := new(big.Int).Exp(big.NewInt(10), big.NewInt(int64(ud.scale)), nil)
+	pow := new(big.Int).Exp(big.NewInt(10), big.NewInt(ud.scaleOf()), nil)
 	quo, rem := new(big.Int).QuoRem(ud.n, pow, new(big.Int))
 	rem.Abs(rem).Lsh(rem, 1)
 	if rem.Cmp(pow) >= 0 {
@@ -348,33 +356,31 @@ func (d *Decimal) Truncate(precision int) *Decimal {
 		panic("failed to parse integer")
 	}
 
-	scale := int64(d.scale) - int64(diff)
-	if scale < math.MinInt32 {
-		panic("exponent out of range")
-	}
+	scale := d.scaleOf() - int64(diff)
 
 	return &Decimal{
 		n:     n,
-		scale: int32(scale),
+		scale: checkScale(scale),
 	}
 }
 
 // String formats the decimal as a string in Ion text format.
 func (d *Decimal) String() string {
+	scale := d.scaleOf()
 	switch {
-	case d.scale == 0:
+	case scale == 0:
 		// Value is an unscaled integer. Just mark it as a decimal.
 		if d.isNegZero {
 			return "-0."
 		}
 		return d.n.String() + "."
 
-	case d.scale < 0:
+	case scale < 0:
 		// Value is a upscaled integer, nn'd'ss
 		if d.isNegZero {
-			return "-0d" + fmt.Sprintf("%d", -d.scale)
+			return "-0d" + fmt.Sprintf("%d", -scale)
 		}
-		return d.n.String() + "d" + fmt.Sprintf("%d", -d.scale)
+		return d.n.String() + "d" + fmt.Sprintf("%d", -scale)
 
 	default:
 		// Value is a downscaled integer nn.nn('d'-ss)?
@@ -385,9 +391,9 @@ func (d *Decimal) String() string {
 			str = d.n.String()
 		}
 
-		idx := len(str) - int(d.scale)
+		idx := int64(len(str)) - scale
 
-		prefix := 1
+		prefix := int64(1)
 		if len(str) > 0 && str[0] == '-' {
 			// Account for leading '-'.
 			prefix++
@@ -403,7 +409,7 @@ func (d *Decimal) String() string {
 		b := strings.Builder{}
 		b.WriteString(str[:prefix])
 
-		if len(str) > prefix {
+		if int64(len(str)) > prefix {
 			b.WriteString(".")
 			b.WriteString(str[prefix:])
 		}
